@@ -82,6 +82,15 @@ def rule_bind_ownership(em, rep, rid):
                 if not isinstance(a, ast.Constant) or a.value in ('_is_bound', '_value'):
                     rep.violation(rid + 'a', '%s:%s' % (f.qname, norm(n)), 'setattr may write the binding cell', f.loc(n))
     rep.minimum('stores to the binding cell', count, 3)
+    binders = {f for f, _, _ in bind_sites(em)}
+    for f in em.repo.all_functions():
+        if f in binders or f.name == '__init__':
+            continue
+        for n in own_nodes_ordered(f.node):
+            if isinstance(n, ast.Attribute) and n.attr in ('_is_bound', '_value') and isinstance(n.ctx, (ast.Store, ast.Del)):
+                rep.violation(rid + 'e', '%s:%s' % (f.qname, norm(n)), 'the binding cell is rewritten outside the binder (%s): the change is not '
+                              'undone when the binding that it shortcuts is undone, so an older alias silently points somewhere else '
+                              'after backtracking' % f.name, f.loc(n))
     for f, cfg, n in bind_sites(em):
         if f.cls is not var:
             continue
@@ -300,6 +309,38 @@ def rule_no_heap_escape(em, rep, rid):
                 rep.ok(rid, key, 'kept in frame-local %s %s' % ('collection' if kind == 'element' else 'name', info), where)
         else:
             rep.ok(rid, key, 'sink: %s%s' % (kind, (' ' + info) if info else ''), where, nontrivial=kind != 'discard')
+
+
+def rule_no_exception_capture(em, rep, rid):
+    """U7: an exception caught while a query is running is not stored: its traceback keeps the
+    frames of the suspended binder generators alive"""
+    rep.rule(rid, 'no handler in the engine stores the exception object it caught in a field, global or container that '
+                  'outlives the handler (the traceback references the generator frames whose finalisation undoes the bindings)')
+    n = 0
+    for f in em.repo.all_functions(('engine',)):
+        for h in [x for x in own_nodes_ordered(f.node) if isinstance(x, ast.ExceptHandler) and x.name]:
+            n += 1
+            key = '%s:except %s as %s' % (f.qname, norm(h.type) if h.type else '', h.name)
+            bad = None
+            for s in h.body:
+                for x in ast.walk(s):
+                    if isinstance(x, ast.Assign) and any(is_name(y, h.name) for y in ast.walk(x.value)) and \
+                            any(isinstance(t, (ast.Attribute, ast.Subscript)) for t in x.targets):
+                        bad = x
+                    if isinstance(x, ast.Assign) and any(is_name(y, h.name) for y in ast.walk(x.value)) and \
+                            any(isinstance(t, ast.Name) and t.id in _declared(f, ast.Global) for t in x.targets):
+                        bad = x
+                    if isinstance(x, ast.Call) and isinstance(x.func, ast.Attribute) and x.func.attr in ('append', 'add', 'insert', 'setdefault') \
+                            and isinstance(x.func.value, ast.Attribute) and any(is_name(y, h.name) for a in x.args for y in ast.walk(a)):
+                        bad = x
+                    if isinstance(x, ast.Return) and x.value is not None and any(is_name(y, h.name) for y in ast.walk(x.value)):
+                        bad = x
+            if bad is not None:
+                rep.violation(rid, key, 'the caught exception is kept (%s): its traceback keeps the unwound query frames and the '
+                              'suspended unification generators they hold alive, so variables stay bound after the query has ended' % norm(bad)[:60], f.loc(bad))
+            else:
+                rep.ok(rid, key, 'exception object does not outlive the handler', f.loc(h))
+    rep.ok(rid, 'handlers', '%d named handlers examined' % n, None, nontrivial=False)
 
 
 # ---------------------------------------------------------------------------------------------
